@@ -2,6 +2,7 @@ import GA.M.Export
 import GA.Props.C04
 import GA.Props.C06d
 import GA.Proofs.LexJoin
+import GA.Proofs.LexStrings
 /-
   C04, the link between the two halves of a deletion: **the entry `ExportChanges` writes for a deleted path is, for
   `ApplyLayer` into any destination, a whiteout whose target is that path under the destination** — for every
@@ -82,6 +83,30 @@ theorem exported_whiteout_applies (ds cs : List Str) (c : Str) (now : Int)
     rcases List.mem_append.mp hx with h | h
     · exact hdcs x h
     · simp only [List.mem_singleton] at h; subst h; exact hc
+
+/-- **a reported deletion is applied**: in any layer in which the exporter's whiteout for `/cs…/c` has the last word on
+    that path, a successful `ApplyLayer` into `dest` leaves nothing at or beneath `dest/cs…/c` — whatever the layer
+    did before the whiteout and whatever the tree held -/
+theorem exported_deletion_is_applied (ds cs : List Str) (c : Str) (now : Int) (o : Opts) (pre post : List Entry)
+    (um : Nat) (w : World)
+    (hds : ∀ d ∈ ds, Norm d) (hcs : ∀ x ∈ cs, Norm x) (hc : Norm c)
+    (hnopq : whPrefix ++ c ≠ whOpaqueDir)
+    (hmeta : hasPrefix (clean (whiteoutHdr (47 :: joinSlash (cs ++ [c])) now).name) whMetaPrefix = false)
+    (hsym : ∀ x ∈ pre ++ whiteoutHdr (47 :: joinSlash (cs ++ [c])) now :: post, x.typ ≠ .sym)
+    (hw : LW ds w)
+    (hfree : ∀ t ∈ touchedL (47 :: joinSlash ds) post, ¬ t <+: ds ++ cs ++ [c] ∧ ¬ ds ++ cs ++ [c] <+: t)
+    (hok : ((applyLayerP (47 :: joinSlash ds) o (pre ++ whiteoutHdr (47 :: joinSlash (cs ++ [c])) now :: post) um).run w).1.1 = .ok) :
+    ∀ q, under (ds ++ cs ++ [c]) q = true →
+      ((applyLayerP (47 :: joinSlash ds) o (pre ++ whiteoutHdr (47 :: joinSlash (cs ++ [c])) now :: post) um).run w).2.fs.lookup q = none := by
+  have hdc : CleanAbs (47 :: joinSlash ds) := ⟨ds, hds, rfl⟩
+  have hcl : clean (47 :: joinSlash ds) = 47 :: joinSlash ds := clean_of_cleanAbs _ hdc
+  have hpc : pathComps (47 :: joinSlash ds) = ds := pathComps_cleanAbs ds hds
+  obtain ⟨hwh, htgt⟩ := exported_whiteout_applies ds cs c now hds hcs hc hnopq hmeta
+  have := C06.layer_whiteout_removes (47 :: joinSlash ds) o pre post (whiteoutHdr (47 :: joinSlash (cs ++ [c])) now) um w
+    (by simp [isAbs]) hsym (by rw [hcl, hpc]; exact hw) (by rw [hcl]; exact hwh)
+    (by rw [hcl, htgt]; exact hfree) hok
+  rw [hcl, htgt] at this
+  exact this
 
 /-- non-vacuity: `/a/old` deleted, applied into `/w/dest` -/
 example : pathComps (C06.whTarget b!"/w/dest" (whiteoutHdr b!"/a/old" 0)) = [b!"w", b!"dest", b!"a", b!"old"] := by
